@@ -66,6 +66,8 @@ opaque mbtowcFFI (str : @& ByteArray) (off : UInt64) : UInt64
 /-- `wcwidth + 1`. -/
 @[extern "mdsort_wcwidth"]
 opaque wcwidthFFI (wc : UInt32) : UInt32
+@[extern "mdsort_timefmt"]
+opaque timefmtFFI (fmt : @& ByteArray) (tz : @& ByteArray) (t : UInt64) : Array UInt32
 
 def hexDigit (n : UInt8) : Char :=
   if n < 10 then Char.ofNat (48 + n.toNat) else Char.ofNat (87 + n.toNat)
@@ -255,6 +257,14 @@ def strptimeEnv (s : Bytes) : Option (Model.Tm × Bytes) :=
 
 def zoneEnv (now : Int) (name : Bytes) : Option Int :=
   some ((zoneFFI (ba name) now.toNat.toUInt64).toNat - 2147483648 : Int)
+
+/-- `time_format` (time.c): `localtime` + `strftime` with the first date format, in the zone `tz` (empty: TZ unset). -/
+def timeFormatEnv (tz : Bytes) (t : Int) : Option Bytes :=
+  match Gen.dateFormats.head? with
+  | none => none
+  | some f =>
+    let r := timefmtFFI f.toUTF8 (ba tz) (t + 4611686018427387904).toNat.toUInt64
+    if (r[0]?).getD 0 == 1 then some ((r.toList.drop 1).map fun c => c.toNat.toUInt8) else none
 
 /-- The value of `exec(argv, -1)` for the programs the unit harness knows: `true`, `false`, and the injectable outcomes
 `vstatus:...` of harness/unit/h_expr.c, mapped by the transcription of `exec()`'s status handling (`Model.execValue`:
@@ -575,7 +585,9 @@ configuration argument could not be read) together with "some rule discards" (fo
 def conformWith (envB filesB devsB input traceB : Bytes)
     (mk : Model.PEnv → Bool → Model.EvalOracles → Model.Files → Option (Model.Prog (Nat × Model.MainSt) × Bool)) : String :=
     let ew := Driver.words (Driver.asText envB)
-    match ew with
+    -- optional 12th word: the TZ the run had (hex; `-` = unset), for `time_format`
+    let tzW : Option Bytes := (ew[11]?).bind Driver.unhex
+    match ew.take 11 with
     | [now, pid, host, random, tmpdir, home, confpath, dry, syn, sin, confok] =>
       match Driver.unhex host, Driver.unhex tmpdir, Driver.unhex home, Driver.unhex confpath with
       | some host, some tmpdir, some home, some confpath =>
@@ -608,7 +620,9 @@ def conformWith (envB filesB devsB input traceB : Bytes)
             files := indexed.map fun e => (e.2, { data := e.1.2.2, durable := e.1.2.2 }),
             mtimes := indexed.map fun e => (e.2, mtimes.getD e.2 0),
             nextFid := files.length, handles := [.other, .other, .other], devs := devs, trace := [] }
-          let orc : Model.EvalOracles := { rx := rxFFI, strptime := strptimeEnv, zoneName := zoneEnv env.now }
+          let tzB : Bytes := tzW.getD []
+          let orc : Model.EvalOracles :=
+            { rx := rxFFI, strptime := strptimeEnv, zoneName := (zoneEnv env.now), timeFormat := (timeFormatEnv tzB) }
           match mk env (confok == "1") orc files with
           | none => "BADSCENARIO"
           | some (prog, discards) =>
